@@ -1,0 +1,10 @@
+//go:build verif
+
+package evalfilter
+
+// Contracts for the verifier in /verif (comment-only; compiled only with -tags verif).
+
+// Dump prints the user-defined functions in the order the map yields them: the order of a listing,
+// not of the compiled program or of a value's printed form.
+//@ func (e *Eval) Dump() (err error)
+//@   maporder listing: the order in which Dump lists the functions is not part of the compiled program or of any value
